@@ -335,6 +335,7 @@ func oneHistory(g *hc.Gen, o *hc.Out, scratch, bin string, h int) {
 			}
 			lines = append(lines, "c01.reset "+strings.Join(init, " "))
 			var text strings.Builder
+			interruptCommit := how == "interrupt" && g.Intn(2) == 0
 			for _, st := range program {
 				s := st.sql
 				if !strings.HasSuffix(s, ";") {
@@ -343,6 +344,9 @@ func oneHistory(g *hc.Gen, o *hc.Out, scratch, bin string, h int) {
 				if strings.Contains(s, "1 / (v - v)") {
 					continue // fails or not depending on the table being empty; the "error" ending covers it
 				}
+				if interruptCommit && st.line == "c01.commit" {
+					continue // the signal must arrive in the FINAL commit: no earlier COMMIT in this variant
+				}
 				text.WriteString(s + " ")
 				lines = append(lines, st.line)
 				if st.kind == "failed" {
@@ -350,7 +354,6 @@ func oneHistory(g *hc.Gen, o *hc.Out, scratch, bin string, h int) {
 					break
 				}
 			}
-			interruptCommit := how == "interrupt" && g.Intn(2) == 0
 			if interruptCommit {
 				// the signal arrives inside a final COMMIT, while the first table is being encoded: the
 				// interrupted commit must publish nothing (every file as before that COMMIT)
